@@ -88,6 +88,15 @@ class ExprMixin:
                 pass
         if opname == "Add" and l.op in ("Tuple", "List") and r.op == l.op:
             return self.mk(l.op, l.args + r.args, None, site)
+        if opname == "Add":
+            # concatenation with a branch-selected tuple / list: the concatenation of the selected one
+            for x, y, left in ((l, r, True), (r, l, False)):
+                if x.op == "Phi" and y.op in ("Tuple", "List") and self._phi_seq(x, y.op):
+                    def cat(n_):
+                        if n_.op == "Phi":
+                            return self.phi(n_.args[0], cat(n_.args[1]), cat(n_.args[2]), site)
+                        return self.mk(y.op, (n_.args + y.args) if left else (y.args + n_.args), None, site)
+                    return cat(x)
         if opname == "BitOr" and (l.op == "Dict" or r.op == "Dict" or (l.op == "Phi" and r.op == "Phi")):
             m = self._dict_union(l, r, site)
             if m is not None:
@@ -101,6 +110,12 @@ class ExprMixin:
         if extra:
             n.extra = extra
         return n
+
+    def _phi_seq(self, n: Node, kind, depth=0) -> bool:
+        if n.op == kind:
+            return not any(a.op == "Starred" for a in n.args)
+        return n.op == "Phi" and depth < 4 and self._phi_seq(n.args[1], kind, depth + 1) and \
+            self._phi_seq(n.args[2], kind, depth + 1)
 
     def keys_differ(self, a: Node, b: Node) -> bool:
         """two key expressions provably denote different values (different constants, or tuples that differ in a
